@@ -46,6 +46,10 @@ v("C03", "ten-second-attempt-timeout", HB, "if updateTimeout < 1*time.Second {\n
   ["C03-R1"], "the per-attempt time-out floor is raised to 10 s")
 v("C03", "counter-reset-on-unhealthy-tick", HB, "\t\t\t\t\tcontinue\n\t\t\t\t}\n\t\t\t\tif e.healthFailureCount.Load() > 0 {", "\t\t\t\t\tconsecutiveFailures = 0\n\t\t\t\t\tcontinue\n\t\t\t\t}\n\t\t\t\tif e.healthFailureCount.Load() > 0 {",
   ["C03-R2"], "the refresh-failure counter is reset by an unhealthy tick, not only by a success")
+v("C03", "heartbeat-every-two-intervals", HB, "ticker := time.NewTicker(e.cfg.HeartbeatInterval)", "ticker := time.NewTicker(2 * e.cfg.HeartbeatInterval)", ["C03-R8"], "refreshes are issued every two heartbeat intervals")
+v("C07", "heartbeat-every-ttl", HB, "ticker := time.NewTicker(e.cfg.HeartbeatInterval)", "ticker := time.NewTicker(e.cfg.TTL)", ["C07-R5"], "refreshes are issued once per TTL")
+v("C06", "periodic-check-only-when-leader-known", W, "\tentry, err := e.kv.Get(e.key)\n\tif err != nil {\n\t\t// Key doesn't exist - trigger re-election", "\tif e.LeaderID() == \"\" {\n\t\treturn\n\t}\n\tentry, err := e.kv.Get(e.key)\n\tif err != nil {\n\t\t// Key doesn't exist - trigger re-election", ["C06-R2"], "the periodic check only reads the key once a leader id is known")
+v("C09", "stop-with-context-ignores-timeout-option", KV, "\ttimeout := opts.Timeout\n\tif timeout == 0 {", "\ttimeout := time.Duration(0)\n\tif timeout == 0 {", ["C09-R3"], "StopWithContext ignores opts.Timeout")
 # ---- C04
 v("C04", "skip-id-comparison", KV, "\tif leaderID != e.cfg.InstanceID {", "\tif false && leaderID != e.cfg.InstanceID {", ["C04-R1"], "validation no longer compares the record's id")
 v("C04", "decode-error-counts-as-valid", KV, "if err := json.Unmarshal(entry.Value(), &payload); err != nil {\n\t\treturn false, err\n\t}\n\n\tkvTokenInterface",
@@ -149,6 +153,8 @@ v("C20", "timer-stopped-without-lock", CN, "func (d *disconnectHandler) stop() {
 v("C20", "term-cancel-read-unlocked", KV, "func (e *kvElection) IsLeader() bool {\n\treturn e.isLeader.Load()", "func (e *kvElection) IsLeader() bool {\n\tif e.termCancel == nil && e.cancel == nil {\n\t\treturn false\n\t}\n\treturn e.isLeader.Load()", ["C20-R1"], "IsLeader reads mutex-guarded fields without the mutex")
 
 def run(cmd, cwd=None, check=True):
+    for k in ("GOTOOLCHAIN", "GOFLAGS", "GOPROXY", "GOSUMDB"):
+        os.environ.pop(k, None)
     r = subprocess.run(cmd, cwd=cwd, shell=isinstance(cmd, str), capture_output=True, text=True)
     if check and r.returncode != 0:
         raise RuntimeError("%s failed: %s %s" % (cmd, r.stdout[-2000:], r.stderr[-2000:]))
